@@ -4,16 +4,38 @@ CONFIG = {
     'props_file': 'Props/C17.v',
     'rule': 'contains cases: (1) every content of length<=6 (quick) / <=8 (thorough) over bytes {00,61,62} x every needle '
             'of length 1..2 (quick) / 1..3 (thorough); (2) random contents up to 14*L bytes with the longest needle planted '
-            'around multiples of the half window (2L) +-L, 1-3 needles incl. empty ones. distinct = hash of (content, needles); '
-            'non-trivial = content non-empty and at least one non-empty needle',
-    'trusted_base': ['io.ReadAtLeast, bytes.Contains modelled from their documentation (Go standard library)'],
-    'assumptions': ['the reader handed to readerContainsAny is a file positioned at 0 whose Read returns min(len(buf), remaining) bytes'],
+            'around multiples of the half window (2L) +-L, 1-3 needles incl. empty ones. '
+            'wfile/wreader/swreader cases (WriteFile / WriteReader / SafeWriteReader, then ReadFile, then a snapshot of every '
+            'MemMapFs layer): (1) grid stacks {mem, bp:/d(mem), cow(mem,mem), cache:0(mem,mem)} x payload sizes '
+            '{0,1,511,512,513,4096,40000,70000} x {parent directory present, two missing parent directories, the path pre-exists '
+            'as a file of 0/3/600/70001 bytes}; readers hand out chunks of 1, 7, 512, 4096, 32768, 32769, 50000 bytes, one chunk, '
+            'or explicit lengths with an empty chunk in the middle; (2) path spellings (relative, //, .., trailing /, "", "/", the '
+            'path is a directory, the parent is a file); (3) random set-ups. Go-side oracle: bytes read back == bytes given after '
+            'a successful write, parent directory exists after WriteReader, SafeWriteReader on an existing path returns an error '
+            'and leaves the deep snapshot (bytes, modes, mtimes in ns, child index) unchanged. '
+            'distinct = hash of the case line without its id; non-trivial = contains: content non-empty and at least one non-empty '
+            'needle; w*: payload non-empty',
+    'trusted_base': ['io.ReadAtLeast, bytes.Contains modelled from their documentation (Go standard library)',
+                     'bytes.Buffer.ReadFrom (request = free capacity when >= MinRead, else grow to max(len+512, 2*cap); the allocator\'s '
+                     'rounding of a grown capacity is not modelled: unreachable when Stat reports the true size), io.Copy (32 KiB buffer, '
+                     'one Write per non-empty Read) modelled from the Go 1.23 sources; filepath.Split from Lib/Path.v',
+                     'the wrappers (BasePathFs, CopyOnWriteFs, CacheOnReadFs) are covered by the correspondence runs only: the '
+                     'round-trip theorems are about MemMapFs'],
+    'assumptions': ['the reader handed to readerContainsAny is a file positioned at 0 whose Read returns min(len(buf), remaining) bytes',
+                    'C17_write_read: p is a regular file, or absent with its parent directory present (sane_for); '
+                    'C17_write_reader: the path map points into the heap, "/" exists, the last element of p is a proper name',
+                    'the io.Reader given to WriteReader/SafeWriteReader is a plain reader (no WriterTo) that ends with (0, io.EOF)',
+                    'ReadFile loop fuel = size reported by Stat + 2 (out of fuel is excluded by the statements)'],
+    # the sample is drawn over all cases; about 7% of them are w* cases
+    'vm_sample': {'quick': 500, 'thorough': 3000},
 }
 
 def nontrivial(cid, lines, r):
     t = lines[0].split(' ')
     if t[0] == 'contains':
         return t[2] != '-' and any(n != '-' for n in t[3].split(','))
+    if t[0] in ('wfile', 'wreader', 'swreader'):
+        return not (t[5].endswith(':0') or t[5] == 'hex:-')
     return True
 
 def spec_signature(key, impl, spec, lines):
@@ -22,15 +44,63 @@ def spec_signature(key, impl, spec, lines):
         return 'contains:' + ('false-positive' if impl == 'true' else 'false-negative')
     return t[0]
 
-COQ_HEADER = '''From AF Require Import Lib.Bytes Gen.Consts Model.Search.
-Definition vm_ok (c : N * bytes * list bytes * bool) : bool :=
-  let '(_, content, nd, expect) := c in Bool.eqb (reader_contains_any content nd) expect.
-Definition vm_id (c : N * bytes * list bytes * bool) : N := let '(i, _, _, _) := c in i.
+COQ_HEADER = '''From AF Require Import Lib.Bytes Lib.Path Lib.Ops Gen.Consts Model.Search Model.MemFile Model.MemFs Model.Stack Model.IOUtil Model.Cases1718.
+Inductive vmcase :=
+| VContains (i : N) (content : bytes) (nd : list bytes) (expect : bool)
+| VIO (i : N) (kind : nat) (k : stack) (setup : list io_setup) (p : str) (data : bytes) (lens : list nat) (perm : Z) (d : N).
+Definition vm_ok (c : vmcase) : bool :=
+  match c with
+  | VContains _ content nd expect => Bool.eqb (reader_contains_any content nd) expect
+  | VIO _ kind k setup p data lens perm d => N.eqb (io_case_digest kind k setup p data lens perm) d
+  end.
+Definition vm_id (c : vmcase) : N := match c with VContains i _ _ _ | VIO i _ _ _ _ _ _ _ _ => i end.
 '''
 _ids = {}
+
+def coq_payload(spec):
+    f = spec.split(':')
+    if f[0] == 'hex':
+        return coq_bytes(f[1])
+    if f[0] == 'rep':
+        return '(repeat %s%%N (N.to_nat %s))' % (f[1], f[2])
+    if f[0] == 'seq':
+        return '(io_seq %s%%N (N.to_nat %s))' % (f[1], f[2])
+    raise ValueError(spec)
+
+def payload_len(spec):
+    f = spec.split(':')
+    return len(f[1]) // 2 if f[0] == 'hex' and f[1] != '-' else (0 if f[0] == 'hex' else int(f[2]))
+
+def coq_lens(n, spec):
+    if spec.startswith('c:'):
+        k = int(spec[2:])
+        lens = [] if (k <= 0 or n == 0) else [k] * ((n - 1) // k)
+    else:
+        lens = [int(x) for x in spec[2:].split('.')]
+    if len(lens) > 400:
+        return '(repeat (N.to_nat %d) (N.to_nat %d))' % (lens[0], len(lens))
+    return '[' + ';'.join('N.to_nat %d' % x for x in lens) + ']'
+
+def coq_setup(s):
+    if s == '-':
+        return '[]'
+    items = []
+    for it in s.split(','):
+        f = it.split('=')
+        items.append('IoMkdir %s' % coq_bytes(f[1]) if f[0] == 'd' else 'IoFile %s %s' % (coq_bytes(f[1]), coq_payload(f[2])))
+    return '[' + '; '.join(items) + ']'
+
 def coq_case(cid, lines, r):
     t = lines[0].split(' ')
-    if t[0] != 'contains' or cid not in r['M']:
-        return None
-    i = _ids.setdefault(cid, len(_ids))
-    return '(%d%%N, %s, %s, %s)' % (i, coq_bytes(t[2]), coq_list([coq_bytes(n) for n in t[3].split(',')]), coq_bool(r['M'][cid]))
+    if t[0] == 'contains' and cid in r['M']:
+        i = _ids.setdefault(cid, len(_ids))
+        return 'VContains %d%%N %s %s %s' % (i, coq_bytes(t[2]), coq_list([coq_bytes(n) for n in t[3].split(',')]), coq_bool(r['M'][cid]))
+    if t[0] in ('wfile', 'wreader', 'swreader') and cid in r.get('D', {}):
+        i = _ids.setdefault(cid, len(_ids))
+        kind = {'wfile': 0, 'wreader': 1, 'swreader': 2}[t[0]]
+        n = payload_len(t[5])
+        lens = '[]' if kind == 0 else coq_lens(n, t[6])
+        perm = coq_z(t[6]) if kind == 0 else '0%Z'
+        return 'VIO %d%%N %d%%nat %s %s %s %s %s %s %s%%N' % (i, kind, coq_stack(t[2]), coq_setup(t[3]), coq_bytes(t[4]),
+                                                           coq_payload(t[5]), lens, perm, r['D'][cid])
+    return None
